@@ -69,6 +69,7 @@ def execute(trace: dict) -> Outcome:
         nontrivial=run.probes.get("presplit_compare", 0) > 0 and run.probes.get("tiling_checked", 0) > 0,
         abstract=feats + common.abstract_states(run),
         steps=run.steps_done,
+        digest=run.final_digest,
     )
 
 
